@@ -118,8 +118,8 @@ Section Spec.
     let args := match ro_args o with Some l => map arg_req l | None => [] end in
     (* nothing is installed unless allow_all_imports is set *)
     (ro_allow o || match ro_args o with None => true | Some _ => false end)
-    (* a run that stopped early neither installs nor records anything *)
-    && (ro_done o || (match ro_args o with None => true | Some _ => false end && dict_same (ro_rec_after o) (ro_rec_before o)))
+    (* a run that ended in an exception (also: a failing installer) records nothing *)
+    && (ro_done o || dict_same (ro_rec_after o) (ro_rec_before o))
     (* an installed package is handed to the installer only if pyscript installed that very version itself
        and a different version is pinned now *)
     && forallb (fun a =>
@@ -130,9 +130,20 @@ Section Spec.
              owned (ro_rec_before o) p iv
              && match snd a with Some w => negb (same_ver (strip w) iv) | None => false end
          end) args
-    (* the record matches what was installed: every package handed to the installer is recorded with the version
-       that was installed ... *)
-    && forallb (fun a =>
+    (* the record only ever contains what was actually installed: an entry that is new or changed names a package
+       that is installed, at that version, when the run ends *)
+    && forallb (fun kv =>
+         match alookup (fst kv) (ro_rec_before o) with
+         | Some v => str_eqb v (snd kv)
+         | None => false
+         end
+         || match truthy (alookup (strip (fst kv)) (ro_env_after o)) with
+            | Some iv => same_ver (strip (snd kv)) iv
+            | None => false
+            end) (ro_rec_after o)
+    (* the record matches what was installed: after a completed run every package handed to the installer is recorded
+       with the version that was installed ... *)
+    && forallb (fun a => negb (ro_done o) ||
          match snd a with
          | Some w => match alookup (fst a) (ro_rec_after o) with Some v => str_eqb v w | None => false end
          | None => match truthy (alookup (fst a) (ro_env_after o)), alookup (fst a) (ro_rec_after o) with
